@@ -1,8 +1,8 @@
 package core
 
 import (
-	"go/types"
 	"go/token"
+	"go/types"
 
 	"golang.org/x/tools/go/ssa"
 )
